@@ -605,7 +605,8 @@ def main(run):
                 "float); alpha in [0,2]; indpb 0, 1 or random; scripted random() values incl. 0.0, 0.5 and its neighbours, "
                 "1-2^-53; scripted gauss; plus error-branch cases outside the statement's domain (short bound lists, low == up, "
                 "gene outside bounds, exp overflow, short strategy) that only exercise the model's Raise outcomes. "
-                "A case is distinct by operator+inputs+draws; non-trivial = at least one gene was rewritten or an exception raised.")
+                "Exhaustive one-locus grid for the two bounded operators: genes {low, low+ulp, 0.3, mid, up-ulp, up} x rand {0, 2^-53, 0.25, "
+                "0.5-ulp, 0.5, 0.9, 1-2^-53} x eta list x bound pairs. A case is distinct by operator+inputs+draws; non-trivial = at least one gene was rewritten or an exception raised.")
     run.trusted += [
         "Coq 8.16.1 kernel and vm_compute; PrimFloat = IEEE-754 binary64 (hardware floats, as CPython)",
         "hand-written model coq/Model/C10_RealOps.v tied by correspondence (harness/c10.py), bit exact for + - * / abs sqrt < <=",
@@ -734,6 +735,25 @@ def main(run):
         do_case("poly", [eta, low, up, indpb], [(g, None)], us, [], True,
                 "CPoly %s %s %s %s %s" % (cfloat(eta), cbnd(low), cbnd(up), cfloat(indpb), cind(0, g, None)))
 
+    # ---- exhaustive small scope for the two bounded operators (one locus) ----------------------------
+    # every combination of boundary / interior genes x extreme draws x the listed crowding degrees
+    grid_bounds = [(0.0, 1.0), (-5e5, 5e5), (1e6, 1e6 + 2.0 ** -20)] if run.thorough else [(0.0, 1.0), (-5e5, 5e5)]
+    grid_eta = ETAS if run.thorough else [0, 1e-9, 1, 1000]
+    grid_rand = [0.0, 2.0 ** -53, 0.25, math.nextafter(0.5, 0.0), 0.5, 0.9, ONE_MINUS]
+    for (lo, hi) in grid_bounds:
+        w = hi - lo
+        pts = [lo, math.nextafter(lo, math.inf), lo + 0.3 * w, lo + 0.5 * w, math.nextafter(hi, -math.inf), hi]
+        for eta in grid_eta:
+            for rand in grid_rand:
+                for a in pts:
+                    for b in (pts if run.thorough else [lo, lo + 0.3 * w, hi]):
+                        for u3 in (0.5, 0.75):
+                            do_case("sbxb", [eta, lo, hi], [([a], None), ([b], None)], [0.5, rand, u3], [], True,
+                                    "CSbxB %s %s %s %s %s" % (cfloat(eta), cbnd(lo), cbnd(hi), cind(0, [a], None), cind(1, [b], None)))
+                    for indpb in (0.5, 1.0):
+                        do_case("poly", [eta, lo, hi, indpb], [([a], None)], [0.5, rand], [], True,
+                                "CPoly %s %s %s %s %s" % (cfloat(eta), cbnd(lo), cbnd(hi), cfloat(indpb), cind(0, [a], None)))
+
     # ---- mutGaussian ------------------------------------------------------------------------------
     for _ in range(N):
         n = gen_len(rng)
@@ -749,6 +769,8 @@ def main(run):
         mu, sigma = ms(False), ms(True)
         indpb = gen_indpb(rng)
         us = [gen_u(rng, 0.0) for _ in range(n)]
+        if indpb == 0 and rng.random() < 0.6:      # the boundary of `random() < indpb`: a draw of exactly 0.0
+            us = [0.0 if rng.random() < 0.6 else u for u in us]
         zs = [gen_z(rng) for _ in range(n)]
         do_case("gauss", [mu, sigma, indpb], [(g, None)], us, zs, True,
                 "CGauss %s %s %s %s" % (cbnd(mu), cbnd(sigma), cfloat(indpb), cind(0, g, None)))
@@ -761,6 +783,8 @@ def main(run):
         c = rng.choice([0, 0.1, 1, 1.0, 2.0, rng.uniform(0, 3)])
         indpb = gen_indpb(rng)
         us = [gen_u(rng, 0.0) for _ in range(n)]
+        if indpb == 0 and rng.random() < 0.6:
+            us = [0.0 if rng.random() < 0.6 else u for u in us]
         zs = [gen_z(rng) for _ in range(2 * n + 1)]
         do_case("eslog", [c, indpb], [(g, st)], us, zs, True,
                 "CESLog %s %s %s" % (cfloat(c), cfloat(indpb), cind(0, g, st)))
